@@ -109,8 +109,11 @@ class IncludeExcludeTree():
                     continue
                 elif key in self.subtrees:
                     if isinstance(value, dict):
-                        # otherwise it won't be selected anyway
                         result[key] = self.subtrees[key].get(value)
+                    elif self.subtrees[key].include:
+                        # the key itself is selected,
+                        # only some of its subkeys are not
+                        result[key] = value
                 else:
                     result[key] = value
         else:
@@ -121,8 +124,11 @@ class IncludeExcludeTree():
                     result[key] = value
                 elif key in self.subtrees:
                     if isinstance(value, dict):
-                        # otherwise it won't be selected
                         result[key] = self.subtrees[key].get(value)
+                    elif self.subtrees[key].include:
+                        # the key itself is selected,
+                        # only some of its subkeys are not
+                        result[key] = value
                 else:
                     continue
 
